@@ -508,3 +508,16 @@ def _wkd_pop(eng, st, self_v, args, kwargs, node):
 def _wkd_set(eng, st, self_v, args, kwargs, node):
     st.emit("wkd_set", [self_v] + list(args), eng.site(node))
     return [eng.val(st, NONE)]
+
+
+@_impl("multiprocessing.Pipe", cite="multiprocessing.Pipe(duplex=False): (reader, writer) connection pair, two new descriptors")
+def _mp_pipe(eng, st, self_v, args, kwargs, node):
+    from pyvc.values import VTuple
+    r = st.new_obj("Connection")
+    w = st.new_obj("Connection")
+    st.emit("mp_pipe", [r, w], eng.site(node))
+    return [eng.val(st, VTuple([r, w]))]
+
+
+for nm in ("BoundedSemaphore", "Lock", "Semaphore", "RLock"):
+    S.contracts[f"Context.{nm}"].event("new_lock", "self")
